@@ -23,7 +23,7 @@ UINT_FROM = "crate::from::<impl crate::Uint<BITS, LIMBS>>::from"
 class Residual:
     """An undischarged site as seen from function `fn`."""
     __slots__ = ("origin_fn", "origin_kind", "origin_what", "origin_where", "origin_macro", "chain",
-                 "guards", "preds", "cfg")
+                 "guards", "preds", "cfg", "precond")
 
     def __init__(self, origin_fn, origin_kind, origin_what, origin_where, origin_macro, chain, guards, preds):
         self.origin_fn = origin_fn
@@ -34,6 +34,7 @@ class Residual:
         self.chain = chain          # call chain from the function down to the origin
         self.guards = guards        # list of (op, keyA, keyB, truth) over param keys
         self.preds = preds          # list of ("nonzero", param local)
+        self.precond = None         # reviewed row: a documented precondition of the origin function itself
 
     def site_key(self):
         """Stable key of the origin site: function + kind + what (no line numbers)."""
@@ -64,7 +65,7 @@ def param_key(view, ai, key):
 # run-time lengths and quotient digits and is the value contract of C12 / C14 (not applicable).  The multiplication
 # kernels, cmp, the shift helpers and the double-word ops ARE in scope: their indices are decided by the interval
 # engine (equal-length assumptions, min(), Rev<Range>, tuple-carried slice lengths).
-KERNEL_OUT_OF_SCOPE = ("src/algorithms/div", "src/algorithms/gcd", "src/algorithms/add.rs")
+KERNEL_OUT_OF_SCOPE = ("src/algorithms/div", "src/algorithms/gcd")
 
 
 def default_implicit_scope(body):
@@ -1063,6 +1064,12 @@ class Totality:
             if row is not None and not self._row_ok(view, site.block, row):
                 self.row_failures.append((key, row.get("kind"), row.get("what"), site.where))
                 row = None
+            precond = None
+            if row is not None and row.get("entry_precondition"):
+                # a documented precondition of this function: accepted when the function itself is the entry point,
+                # but it stays a site (with its guard) that every caller has to refute
+                precond = (self._row_owner, row)
+                row = None
             if row is not None:
                 self.table_used.add((self._row_owner, row.get("kind"), row.get("what")))
                 if row.get("pred"):
@@ -1079,7 +1086,9 @@ class Totality:
             sg = self._site_guard(view, a, st, site)
             if sg is not None:
                 guards.append(sg)
-            out.append(Residual(key, site.kind, what, site.where, site.macro, [key], guards, preds))
+            res_ = Residual(key, site.kind, what, site.where, site.macro, [key], guards, preds)
+            res_.precond = precond
+            out.append(res_)
 
         # calls to local functions (and closures / fn items handed to foreign combinators)
         for bi, t in view.calls():
